@@ -240,15 +240,107 @@ fn case_strategy(tier: Tier) -> impl Strategy<Value = Case> {
     })
 }
 
+// ───────────── a run on an OS thread that has hosted a failed run behaves like a run on a fresh thread ─────────────
+
+pub const KNOWN_THREAD_LEFT_PANICKING: &str = "c14.os-thread-left-panicking-after-abandoned-unwind";
+
+#[derive(Clone, Debug, serde::Serialize, serde::Deserialize)]
+struct AfterCase {
+    prelude: Prog,
+    main: Prog,
+    seed: u64,
+}
+
+type RunView = (Result<usize, String>, Vec<Vec<(usize, usize, i64)>>);
+
+fn view(r: RunResult) -> RunView {
+    (r.result, r.logs.iter().map(|l| l.entries.iter().map(|e| (e.task, e.pc, e.obs)).collect()).collect())
+}
+
+fn after_decide(c: &AfterCase, out: &mut CaseOut, tolerate_known: bool) -> Result<(), Fail> {
+    use shuttle::scheduler::RandomScheduler;
+    let cfg = || quiet_config(MaxSteps::FailAfter(STEP_BOUND));
+    let prelude = Arc::new(c.prelude.clone());
+    let main = Arc::new(c.main.clone());
+    let seed = c.seed;
+    let run_main = {
+        let main = main.clone();
+        move || view(run_prog(&main, RandomScheduler::new_from_seed(seed ^ 1, 8), cfg(), Opts::default()))
+    };
+    // thread A: the failing prelude, then the main program on the same OS thread
+    let (prelude_failed, left_panicking, after): (bool, bool, RunView) = {
+        let prelude = prelude.clone();
+        let run_main = run_main.clone();
+        std::thread::Builder::new()
+            .stack_size(64 << 20)
+            .spawn(move || {
+                let p = run_prog(&prelude, RandomScheduler::new_from_seed(seed, 12), cfg(), Opts::default());
+                let left = std::thread::panicking();
+                (p.result.is_err(), left, run_main())
+            })
+            .unwrap()
+            .join()
+            .map_err(|_| (String::new(), "harness: thread A died".to_string()))?
+    };
+    // thread B: the main program alone on a fresh OS thread
+    let alone: RunView = std::thread::Builder::new().stack_size(64 << 20).spawn(run_main).unwrap().join().map_err(|_| (String::new(), "harness: thread B died".to_string()))?;
+    out.evaluations += (after.1.len() + alone.1.len()) as u64;
+    out.nontrivial = prelude_failed && c.main.tasks.len() >= 2;
+    if prelude_failed {
+        out.class("after_failed_run:prelude_failed");
+    }
+    if after != alone {
+        if left_panicking && tolerate_known {
+            out.class("excluded_by_known:os_thread_left_panicking");
+            out.count("excluded_by_known", 1);
+            return Ok(());
+        }
+        let sig = if left_panicking { KNOWN_THREAD_LEFT_PANICKING.to_string() } else { String::new() };
+        let k = after.1.iter().zip(alone.1.iter()).position(|(a, b)| a != b);
+        return Err((
+            sig,
+            format!(
+                "a run on an OS thread that hosted a failed run differs from the same run on a fresh thread (std::thread::panicking() after the failed run: {left_panicking}): results {:?} vs {:?}; first differing execution {k:?}: {:?} vs {:?}",
+                after.0,
+                alone.0,
+                k.and_then(|k| after.1.get(k)),
+                k.and_then(|k| alone.1.get(k))
+            ),
+        ));
+    }
+    Ok(())
+}
+
+fn after_strategy() -> impl Strategy<Value = AfterCase> {
+    let mut pc = GenCfg::small(Family::Locks);
+    pc.asserts = true;
+    pc.max_tasks = 3;
+    pc.max_ops = 4;
+    let mut mc = GenCfg::small(Family::Chan);
+    mc.max_tasks = 3;
+    mc.max_ops = 4;
+    (prog_strategy(pc), prog_strategy(mc), any::<u64>()).prop_map(|(prelude, main, seed)| AfterCase { prelude, main, seed })
+}
+
 fn run_chunk(ctx: &Ctx) -> ChunkResult {
     let mut res = ChunkResult::default();
     let tier = ctx.tier;
     run_prop(ctx, "C14", "isolation", 1, tier.pick(150, 800), case_strategy(tier), &mut res, |c: &Case| serde_json::to_value(c).unwrap(), |c: &Case, out: &mut CaseOut| decide(c, out));
+    run_prop(ctx, "C14", "after_failed_run", 2, tier.pick(120, 600), after_strategy(), &mut res, |c: &AfterCase| serde_json::to_value(c).unwrap(), |c: &AfterCase, out: &mut CaseOut| after_decide(c, out, true));
     res
 }
 
 fn replay(case: &Value, _tier: Tier) -> Vec<Violation> {
     let input = case.get("input").cloned().unwrap_or(case.clone());
+    if case.get("check").and_then(|c| c.as_str()) == Some("after_failed_run") {
+        return match serde_json::from_value::<AfterCase>(input) {
+            Ok(c) => match after_decide(&c, &mut CaseOut::default(), false) {
+                Ok(()) => vec![],
+                Err((signature, what)) => vec![Violation { check: "after_failed_run".into(), signature, what, case: case.clone() }],
+            },
+            Err(e) => vec![Violation { check: "replay".into(), signature: String::new(), what: format!("bad replay file: {e}"), case: case.clone() }],
+        };
+    }
     let c: Case = match serde_json::from_value(input) {
         Ok(c) => c,
         Err(e) => return vec![Violation { check: "replay".into(), signature: String::new(), what: format!("bad replay file: {e}"), case: case.clone() }],
